@@ -42,7 +42,7 @@ func byteArrayLit(e ast.Expr) ([]int, bool) {
 	return out, true
 }
 
-func coqNList(xs []int) string {
+func coqNListFs(xs []int) string {
 	if len(xs) == 0 {
 		return "[]"
 	}
@@ -126,8 +126,8 @@ func genC36(g *gen) {
 		g.note("Magic / XORKey literal not recognised")
 	}
 	g.line("Definition gen_footer_size : Z := %d%%Z.", fs)
-	g.line("Definition gen_magic : list N := %s.", coqNList(magic))
-	g.line("Definition gen_xor_key : list N := %s.", coqNList(key))
+	g.line("Definition gen_magic : list N := %s.", coqNListFs(magic))
+	g.line("Definition gen_xor_key : list N := %s.", coqNListFs(key))
 	k1, b1 := lengthCheckKind(findFunc(f, "", "ReadEmbeddedConfig"))
 	k2, b2 := lengthCheckKind(findFunc(f, "", "GetOriginalBinarySize"))
 	g.line("(* footer-length guard: 0 = absent, 1 = signed int64 comparison, 2 = unsigned comparison against uint64(fileSize-FooterSize) *)")
